@@ -482,7 +482,8 @@ Proof.
       simpl join_items. simpl app. rewrite ft_open_i. repeat rewrite <- app_assoc.
       rewrite (ft_quoted sLabels tQString sLabels) by auto. simpl app. rewrite ft_comma.
       repeat rewrite <- app_assoc.
-      rewrite ft_item by assumption. rewrite ft_tail_items by assumption.
+      rewrite ft_item by assumption. change ([125] ++ 32 :: X) with (125 :: 32 :: X).
+      rewrite ft_tail_items by assumption.
       repeat rewrite <- app_assoc. reflexivity.
 Qed.
 
